@@ -5,7 +5,11 @@ import common
 
 ALL = ["C%02d" % i for i in range(1, 21)]
 checks, na = [], []
+CLAIMED = set((common.VERIF / "tools" / "claimed.txt").read_text().split())
 for pid in ALL:
+    if pid not in CLAIMED:
+        na.append({"property_id": pid, "reason": "check not finished yet (work in progress; see DESIGN.md §8a order of work)"})
+        continue
     try:
         m = importlib.import_module("props." + pid.lower())
     except ModuleNotFoundError:
